@@ -466,7 +466,7 @@ func (tw *tunnelWorld) endpointUp(p *tProxy) bool {
 	case ptSTCP, ptXTCP:
 		return tw.listening(p.publicAddr) && tw.w.FrpLogContains("["+p.name+"] start proxy success")
 	default:
-		return tw.w.FrpLogContains("["+p.name+"] start proxy success")
+		return tw.w.FrpLogContains("[" + p.name + "] start proxy success")
 	}
 }
 
